@@ -102,8 +102,13 @@ def cases(draw, tier):
     else:
       steps.append({'do': 'validate', 'q': q, 'metric': draw(st.sampled_from(['mse', 'median_diff_ratio'])),
                     'seed': draw(st.integers(0, 99))})
-  return {'model': mspec, 'steps': steps, 'nq': nq}
+  # a quarter of the histories run with every quantize() on the large-model
+  # (external buffer) serialization path - the hook's threshold, which the
+  # fresh process inherits
+  return {'model': mspec, 'steps': steps, 'nq': nq, 'large': draw(st.integers(0, 3)) == 0}
 
+
+LARGE_ENV = 'AI_EDGE_QUANTIZER_VERIF_LARGE_MODEL_THRESHOLD'
 
 def deep_equal(a, b):
   if isinstance(a, np.ndarray) or isinstance(b, np.ndarray):
@@ -206,6 +211,18 @@ def fresh_quantize(model_bytes, recipe, calib):
 
 
 def check_case(case):
+  old = os.environ.pop(LARGE_ENV, None)
+  if case.get('large'):
+    os.environ[LARGE_ENV] = '-1'
+  try:
+    return _check_case(case)
+  finally:
+    os.environ.pop(LARGE_ENV, None)
+    if old is not None:
+      os.environ[LARGE_ENV] = old
+
+
+def _check_case(case):
   mspec = case['model']
   model_bytes = bytearray(G.build(mspec))   # caller-owned and mutable
   model_snap = bytes(model_bytes)
@@ -300,9 +317,12 @@ def check_case(case):
         raise Violation('earlier_result_mutated', '%s was modified by %s: %s' % (what, where, _diff(obj, snap)))
   # fresh processes under other hash seeds (sampled)
   every = 12 if os.environ.get('VERIF_TIER_C14') == 'thorough' else 32
+  if case.get('large'):
+    every = every // 4     # process-global state behind the rarely used serializer
+    labels.append('large_model_path')
   if triples and int(core.spec_hash(case), 16) % every == 0:
     recipe, calib, want = triples[-1]
-    for hs in ('1', '12345'):
+    for hs in (('12345',) if case.get('large') else ('1', '12345')):
       got = _child_hash(mspec, recipe, calib, hs)
       if got != want:
         raise Violation('output_depends_on_process_or_hash_seed',
